@@ -70,7 +70,7 @@ func vhHasRef(cs []Storable) bool {
 // kinds; nested containers hold scalars (every CBOR width) and, while depth
 // remains, one further nested array.
 func vhByteElem(storage *BasicSlabStorage, addr Address, a *Array, depth int, top bool) {
-	kinds := 2
+	kinds := 3
 	if top {
 		kinds = 4
 	}
@@ -79,7 +79,7 @@ func vhByteElem(storage *BasicSlabStorage, addr Address, a *Array, depth int, to
 	}
 	k := vhChoose("elem", kinds)
 	if !top && k >= 1 {
-		k += 2 // nested: only scalar (0), small blob (3), child array (4), child map (5)
+		k++ // nested: scalar (0), large blob behind a reference (2), small blob (3), child array (4), child map (5)
 	}
 	switch k {
 	case 0:
@@ -185,10 +185,16 @@ func VH_C07_MapBytes() {
 			val = vBlob{n: 60} // big enough that two of them spill a collision group to an external slab
 		case 4: // nested array (inlined) with one scalar
 			c, _ := NewArray(storage, addr, vTypeInfo{id: 43})
-			if vhChoose("childlen", 2) == 1 {
+			switch vhChoose("childlen", 3) {
+			case 1:
 				_ = c.Append(vU64(vhU64("val")))
+			case 2:
+				_ = c.Append(vBlob{n: 150}) // the inlined child holds a reference
 			}
 			val = c
+			if vhChoose("wrapchild", 2) == 1 {
+				val = vSomeValue{inner: c}
+			}
 		}
 		_, err := m.Set(vhCompareBK, vhHip, key, val)
 		vhAssert(err == nil, "set")
